@@ -410,7 +410,7 @@ def r13_8(prog, rep, RULE='R13.8'):
             if not src:
                 continue
             kind_kept = False
-            if cn == 'std::io::Error::new' and t.args[0].place is not None:
+            if cn != 'std::io::Error::other' and t.args and t.args[0].place is not None:     # new(kind, ..) / From<ErrorKind>::from(kind)
                 ko = origins(body, [t.args[0].place[0]])
                 kind_kept = any(cnorm(body.blocks[c].term) == 'std::io::Error::kind' for c in ko.calls)
             rep.ob(RULE, kind_kept, RULE + '|%s|%s|io-error-rebuilt-from-io-error' % (body.nkey, cn.split('::')[-1]),
